@@ -687,3 +687,72 @@ mutant("c06-mod-checked-rem",
        [(E, "                            if *b == 0 {\n                                Err(new_int_overflow(a, b))\n                            } else {\n                                // `wrapping_rem` only differs from `%` for\n                                // `i64::MIN % -1`, where it returns the\n                                // exact result (`0`) instead of panicking.\n                                Ok(Value::Int(a.wrapping_rem(*b)))\n                            }",
             "                            if let Some(v) = a.checked_rem(*b) {\n                                Ok(Value::Int(v))\n                            } else {\n                                Err(new_int_overflow(a, b))\n                            }")],
        [("C06", "R06.1")], note="`%` by checked_rem: i64::MIN % -1 (exact result 0) reported as overflow")
+
+# ---- round 5 (free-choice refactors) ------------------------------------------
+RFS = "refactors/free-scope/patch.diff"
+mutant("rfs-lookup-outermost-first",
+       [(SC, "        for scope in self.0.iter().rev() {\n            if let Some(binding) = lock(scope).get_mut(name) {",
+             "        for scope in self.0.iter() {\n            if let Some(binding) = lock(scope).get_mut(name) {")],
+       [("C04", "R04.5")], also=[("C20", "R20.7")], base=RFS,
+       note="scope refactor (shared with_binding walk) + lookups search the outermost scope first")
+mutant("rfs-lookup-var-null-on-miss",
+       [(E, "    scopes.get(name).ok_or_else(|| Error::AtLoc{\n        source: Box::new(Error::Undefined{name: name.to_string()}),\n        line,\n        col,\n    })",
+            "    let _ = (line, col);\n    Ok(scopes.get(name).unwrap_or_else(value::new_null))")],
+       [("C20", "R20.4")], base=RFS, note="scope refactor + the shared lookup helper answers null for an undefined name")
+mutant("rfs-with-new-scope-copies-bindings",
+       [(SC, "        scopes.push(Arc::new(Mutex::new(Scope::new())));",
+             "        let top = self.0.last().map(|s| lock(s).clone()).unwrap_or_default();\n        scopes.push(Arc::new(Mutex::new(top)));")],
+       [("C04", "R04.4")], also=[("C04", "R04.2"), ("C20", "R20.6")], base=RFS,
+       note="scope refactor + a new scope starts as a copy of the enclosing one")
+
+RFB = "refactors/free-bind/patch.diff"
+mutant("rfb-assign-declares-on-miss",
+       [(B, "            if !scopes.assign(name, new_val) {\n                return new_undefined_err();\n            }",
+            "            if !scopes.assign(name, new_val.clone()) {\n                let _ = scopes.declare(name, *name_loc, new_val);\n            }")],
+       [("C20", "R20.4")], base=RFB, note="binder refactor + assignment to an undefined name declares it")
+
+RFA = "refactors/free-eval-a/patch.diff"
+mutant("rfa-loop-step-break-continues",
+       [(E, "        Escape::Break{..} => LoopStep::Exit(Escape::None),", "        Escape::Break{..} => LoopStep::Next,")],
+       [("C07", "R07.2")], base=RFA, note="loop_step classifier + break behaves like continue")
+mutant("rfa-loop-step-return-swallowed",
+       [(E, "        Escape::Return{..} => LoopStep::Exit(escape),", "        Escape::Return{..} => LoopStep::Exit(Escape::None),")],
+       [("C07", "R07.2")], base=RFA, note="loop_step classifier + a return inside a loop only ends the loop")
+mutant("rfa-loop-step-continue-exits",
+       [(E, "        Escape::None | Escape::Continue{..} => LoopStep::Next,", "        Escape::None => LoopStep::Next,\n        Escape::Continue{..} => LoopStep::Exit(Escape::None),")],
+       [("C07", "R07.2")], base=RFA, note="loop_step classifier + continue ends the loop")
+
+RFC = "refactors/free-eval-c/patch.diff"
+mutant("rfc-sub-operands-swapped-in-error",
+       [(E, "            checked_int(a.checked_sub(*b), a, b),", "            checked_int(a.checked_sub(*b), b, a),")],
+       [("C06", "R06.1")], base=RFC, note="flat operator match + the overflow error of `-` reports (rhs, lhs)")
+mutant("rfc-mul-wrapping",
+       [(E, "            checked_int(a.checked_mul(*b), a, b),", "            checked_int(Some(a.wrapping_mul(*b)), a, b),")],
+       [("C06", "R06.1")], also=[("C06", "R06.2")], base=RFC, note="flat operator match + `*` wraps")
+mutant("rfc-overflow-defaults-to-zero",
+       [(E, "            None =>\n                Err(new_loc_err(Error::IntOverflow{\n                    op: op.clone(),\n                    lhs: *a,\n                    rhs: *b,\n                })),",
+            "            None if matches!(op, BinaryOp::Div) =>\n                Ok(Value::Int(0)),\n            None =>\n                Err(new_loc_err(Error::IntOverflow{\n                    op: op.clone(),\n                    lhs: *a,\n                    rhs: *b,\n                })),")],
+       [("C06", "R06.1")], base=RFC, note="flat operator match + division by zero gives 0")
+mutant("rfc-exact-rem-zero-guard-dropped",
+       [(E, "    if b == 0 {\n        return None;\n    }\n\n    // `wrapping_rem`", "    if b == 1 {\n        return None;\n    }\n\n    // `wrapping_rem`")],
+       [("C06", "R06.1")], also=[("C06", "R06.2"), ("C02", "R02.2")], base=RFC, note="flat operator match + exact_rem guards the wrong divisor")
+mutant("rfc-ne-not-negated",
+       [(E, "                .map(|equal| Value::Bool(!equal))", "                .map(|equal| Value::Bool(equal))")],
+       [("C10", "R10.3")], base=RFC, note="flat operator match + `!=` answers like `==`")
+mutant("rfc-ne-compares-swapped-operands",
+       [(E, "        (BinaryOp::Ne, _, _) =>\n            deep_eq(lhs, rhs)", "        (BinaryOp::Ne, _, _) =>\n            deep_eq(rhs, lhs)")],
+       [("C10", "R10.3")], also=[("C16", "R16.4")], base=RFC, note="flat operator match + `!=` traverses (rhs, lhs): mismatch diagnostics name the types in the wrong order")
+mutant("rfc-mismatch-types-swapped",
+       [(E, "lhs_type: error::render_type(lhs),", "lhs_type: error::render_type(rhs),")],
+       [("C16", "R16.4")], base=RFC, note="flat operator match + the mismatch value names the rhs type as lhs_type")
+
+mutant("c16-eq-mismatch-tuple-swapped",
+       [(E, "                String::new(),\n                error::render_type(lhs),\n                error::render_type(rhs),",
+            "                String::new(),\n                error::render_type(rhs),\n                error::render_type(lhs),")],
+       [("C16", "R16.4")], note="`==` type mismatch names the operand types in the wrong order")
+
+RFV = "refactors/free-value/patch.diff"
+mutant("rfv-list-ctor-reuses-cell",
+       [("src/eval/value.rs", "    pub fn list(items: List) -> Self {\n        Value::List(new_shared(items))\n    }",
+         "    pub fn list(items: List) -> Self {\n        thread_local! { static CELL: ListRef = new_shared(vec![]); }\n        if items.is_empty() {\n            return Value::List(CELL.with(|c| c.clone()));\n        }\n        Value::List(new_shared(items))\n    }")],
+       [("C05", "R05.3")], base=RFV, note="constructor refactor + every empty list shares one cell")
